@@ -22,11 +22,13 @@ type c14Val struct {
 var c14Vals = []c14Val{
 	{"nil", false}, {bn.KwFalse, false}, {bn.KwTrue, true}, {"0", false}, {"(-0)", false}, {"1", true}, {"((2 ** 1024) - (2 ** 1024))", true},
 	{"\"\"", false}, {"\"x\"", true}, {"[]", true}, {"{}", true}, {"pf", true}, {bn.BLen, true}, {"(\"\" + \"\")", false}, {"2", true}, {"\"0\"", true}, {"[0]", true}, {"0.0", false}, {"0.5", true}, {"(-0.25)", true}, {"(2 ** 1024)", true}, {"0.000001", true},
+	// nil however it comes about (appended: the positions above are referred to by number)
+	{"bare()", false}, {"fell()", false}, {"unset", false},
 }
 
-var c14Few = []int{0, 3, 5, 8} // nil, 0, 1, "x"
+var c14Few = []int{0, 3, 5, 8, 22} // nil, 0, 1, "x", the value of a call that ended in a bare return
 
-const c14Prelude = "ফাংশন pf() { ফেরত 7; }\nফাংশন id2(a, b) { ফেরত b; }\nফাংশন id3(a, b, c) { ফেরত c; }\nধরি arr = [10, 20, 30];\nধরি obj = {k: 1};\nধরি x = 0;\n"
+const c14Prelude = "ফাংশন pf() { ফেরত 7; }\nফাংশন id2(a, b) { ফেরত b; }\nফাংশন id3(a, b, c) { ফেরত c; }\nধরি arr = [10, 20, 30];\nধরি obj = {k: 1};\nধরি x = 0;\n" + bn.KwFun + " bare() { " + bn.KwReturn + "; }\n" + bn.KwFun + " fell() { }\n" + bn.KwVar + " unset;\n"
 
 func c14Probe(k int, v c14Val) string {
 	return fmt.Sprintf("%s t%d() { %s \"t%d\"; %s %s; }\n", bn.KwFun, k, bn.KwPrint, k, bn.KwReturn, v.text)
@@ -133,6 +135,17 @@ func TestC14(t *testing.T) {
 				P + " arr[t1()];\n" + P + " t2();\n" + P + " t3();\n",
 				"obj.k = t1();\n" + P + " obj.k;\n" + P + " t2() + t3();\n",
 				P + " t1() + t2() * t3();\n",
+				// runs of operators of one level: each operator is applied as soon as its two operands are there, so a
+				// failing application keeps the operands behind it from running
+				P + " t1() - t2() + t3();\n",
+				P + " t1() * t2() / t3();\n",
+				P + " t1() << t2() >> t3();\n",
+				P + " t1() < t2() < t3();\n",
+				P + " t1() & t2() & t3();\n",
+				P + " t1() | t2() | t3();\n",
+				P + " t1() ** t2() ** t3();\n",
+				P + " t1() % t2() * t3() + pf();\n",
+				P + " t1() - t2() - t3() - id2(1, t1());\n",
 				P + " (t1() " + bn.KwOr + " t2()) " + bn.KwAnd + " t3();\n",
 				P + " t1() " + bn.KwOr + " t2() " + bn.KwAnd + " t3();\n",
 				P + " t1() == t2() == t3();\n",
